@@ -184,6 +184,31 @@ func hostileReplies() []hostileReply {
 		{"ok", auto(nil)},
 		{"nothing", func(*hostileBackend, http.ResponseWriter, *http.Request) {}},
 	}
+	// grpc-message values around the percent-decoder: broken escapes at every position,
+	// alone and next to valid ones, invalid UTF-8 when decoded
+	for i, gm := range []string{"%", "%4", "a%", "a%4", "%41%", "%41%4", "d%C3%A9bit at 100%", "%C3%A9%2", "%%41", "%zz%41", "%41%zz", "%FF%FE", "%C3", "%00", "%0A%0D", strings.Repeat("%41", 300) + "%"} {
+		gm := gm
+		for _, inTrailer := range []bool{false, true} {
+			inTrailer := inTrailer
+			rs = append(rs, hostileReply{fmt.Sprintf("grpc-message-%d-trailer=%v", i, inTrailer), func(hb *hostileBackend, w http.ResponseWriter, r *http.Request) {
+				ct := r.Header.Get("Content-Type")
+				if ct == "" {
+					ct = "application/grpc+proto"
+				}
+				w.Header().Set("Content-Type", ct)
+				if !inTrailer {
+					w.Header().Set("Grpc-Status", "9")
+					w.Header().Set("Grpc-Message", gm)
+					w.WriteHeader(200)
+					return
+				}
+				w.WriteHeader(200)
+				_, _ = w.Write(frame)
+				w.Header().Set(http.TrailerPrefix+"Grpc-Status", "9")
+				w.Header().Set(http.TrailerPrefix+"Grpc-Message", gm)
+			}})
+		}
+	}
 	for _, st := range []int{99, 100, 101, 199, 204, 304, 302, 404, 500, 600, 999, 1000, 0, -1} {
 		st := st
 		rs = append(rs, hostileReply{fmt.Sprintf("status-%d", st), auto(func(_ *wire.ServerResp, out *wire.ServerOut, _ *world.Reply) { out.Status = st })})
